@@ -144,6 +144,13 @@ def run(ck):
     R5 = ck.rule('R13.5', "malformed input raises: leftover text, wrong number of endpoints, "
                  "wrong sequence lengths, time zones, unsupported types", 'M0', 8)
 
+    R6 = ck.rule('R13.6', "the string parser for dates and date-times: abstract run of _convert_str (with "
+                 "_match_pattern and _name_to_month, the module's own regular expressions) on well-formed "
+                 "strings of every documented notation and on malformed strings derived from them - the former "
+                 "yield the numbers they denote, the latter raise ValueError instead of being misread", 'M0', 2)
+    with ck.section('R13.6'):
+        from rules.strparse import convert_str_run
+        convert_str_run(ck, R6)
     with ck.section('R13.1'):
         orderings = weak_orderings3()
         ck.extra['exhaustive_parts'] = ['R13.1: 3 interval classes x all 13 weak orderings of (low, item, high) -- a complete abstraction for functions that touch their arguments only through comparisons']
